@@ -32,11 +32,15 @@ def build():
     sys.path.insert(0, VERIF)
     checks = []
     claimed = set()
+    # checks/ENABLED.txt (optional): whitespace-separated ids of the checks that are registered; a check file
+    # that exists but is not listed is still under construction and is not claimed
+    en = os.path.join(VERIF, "checks", "ENABLED.txt")
+    enabled = set(open(en).read().split()) if os.path.exists(en) else None
     for p in sorted(glob.glob(os.path.join(VERIF, "checks", "C*.py"))):
         pid = os.path.basename(p)[:-3]
         mod = importlib.import_module("checks.%s" % pid)
         m = mod.META
-        if m.get("disabled"):
+        if m.get("disabled") or (enabled is not None and pid not in enabled):
             continue
         claimed.add(pid)
         checks.append({
